@@ -435,10 +435,34 @@ def chunks(lines, n):
     return [lines[i:i + n] for i in range(0, len(lines), n)]
 
 
+BRANCH_HITS = {}
+
+
+def _hit(k, n=1):
+    BRANCH_HITS[k] = BRANCH_HITS.get(k, 0) + n
+
+
 def nontrivial(h, out):
-    """distinct = distinct observation lines of ops that produced at least two results / two words / ran a child"""
+    """distinct = distinct observation lines of ops that produced at least two results / two words / ran a child;
+    also counts which kinds of results the implementation delivered (evidence: branch_hits)"""
     keys = set()
     for l, o in zip(h, out):
+        if o.startswith("r"):
+            for r in o.split()[1:-1]:
+                c, a = r.split(":")
+                _hit("args:unknown-option" if c == "63" else "args:missing-value" if c == "58" else
+                     ("args:non-option" if a != "-" else "args:empty-non-option") if c == "0" else
+                     "args:option-with-value" if a != "-" else "args:option-without-value")
+            _hit("args:vectors")
+        elif o.startswith("s "):
+            _hit("split:lines")
+            _hit("split:words", int(o.split()[1]))
+            if '22' in [l.split()[1][i:i + 2] for i in range(0, len(l.split()[1]), 2)]:
+                _hit("split:lines-with-quote")
+        elif o.startswith("x "):
+            _hit("run:env-inherited" if " env=inherit" in o else "run:env-given")
+        elif o.startswith("p "):
+            _hit("proc:call-refused" if o.startswith("p ok=0") else "proc:call-ok")
         if o.startswith(("p ", "e ")) and len(h) >= 3:
             keys.add((tuple(h), o))
         elif o.count(":") >= 2 or (o.startswith("s ") and not o.startswith("s 0") and not o.startswith("s 1 ")) or o.startswith(("x ", "io ", "exit ")):
@@ -525,6 +549,7 @@ def check(ctx):
         ctx.cov["samples"] = [" ; ".join(h[:3]) for h in (hs[:1] + hs[len(hs) // 3: len(hs) // 3 + 1] + hs[len(hs) // 2: len(hs) // 2 + 2] + hs[-40:-39] + hs[-1:])]
         diffs = C.differential(ctx, harness, C.driver_path(DRIVER), hs, reference, model_eq, nontrivial=nontrivial,
                                harness_args=(str(child),), timeout=600)
+        ctx.cov["branch_hits"] = dict(sorted(BRANCH_HITS.items()))
         ctx.log(f"{len(hs)} histories, {ctx.cov['evaluations']} op lines, {len(diffs)} disagreement(s)")
         C.report_diffs(ctx, diffs, harness, C.driver_path(DRIVER), reference, model_eq, "args-ops", harness_args=(str(child),))
     finally:
